@@ -262,7 +262,7 @@ func makeTypeIsIntUintFilter(src, varname string, underlying bool, kind types.Ba
 		if underlying {
 			typ = typ.Underlying()
 		}
-		if basicType, ok := typ.(*types.Basic); ok {
+		if basicType, ok := types.Unalias(typ).(*types.Basic); ok {
 			first := kind
 			last := kind + 4
 			if basicType.Kind() >= first && basicType.Kind() <= last {
@@ -279,7 +279,7 @@ func makeTypeIsSignedFilter(src, varname string, underlying bool) filterFunc {
 		if underlying {
 			typ = typ.Underlying()
 		}
-		if basicType, ok := typ.(*types.Basic); ok {
+		if basicType, ok := types.Unalias(typ).(*types.Basic); ok {
 			if basicType.Info()&types.IsInteger != 0 && basicType.Info()&types.IsUnsigned == 0 {
 				return filterSuccess
 			}
@@ -294,7 +294,7 @@ func makeTypeOfKindFilter(src, varname string, underlying bool, kind types.Basic
 		if underlying {
 			typ = typ.Underlying()
 		}
-		if basicType, ok := typ.(*types.Basic); ok {
+		if basicType, ok := types.Unalias(typ).(*types.Basic); ok {
 			if basicType.Info()&kind != 0 {
 				return filterSuccess
 			}
@@ -729,6 +729,9 @@ func typeHasPointers(typ types.Type) bool {
 
 	case *types.Named:
 		return typeHasPointers(typ.Underlying())
+
+	case *types.Alias:
+		return typeHasPointers(types.Unalias(typ))
 
 	case *types.Struct:
 		for i := 0; i < typ.NumFields(); i++ {
